@@ -181,6 +181,7 @@ class HashsumFile(HashIO):
 
 
 def add_all(reg):
+    reg.globals[("*", "hashlib")] = HashlibModule()
     specs = [Hashsum(), QualifiedHashsum(), FileHashsum(), HashsumFile()]
     for s in specs:
         reg.add(s)
